@@ -147,16 +147,28 @@ Fixpoint feeders_ok (p : nat) (bufs : list (list Z)) (pend : list Z) : bool :=
 (* join is exact: a join that returned saw the number of unfinished tasks at zero at some
    moment between its first and its last operation (count replayed from the trace) *)
 (* specification count of unfinished tasks, from the trace alone: +1 when a JoinableQueue.put
-   call releases the condition's lock (the item is then visibly put), -1 when a task_done
-   obtains the count *)
+   call releases the lock of its process's _notempty (from then on the item is in the buffer,
+   visible to the feeder and hence to consumers; in the pinned code the counter was incremented
+   before that release), -1 when a task_done obtains the count.  In the pinned code
+   specification count <= real count at every moment, so the monitors below cannot fire. *)
 Fixpoint unfinished_after (scripts : list (list qcall)) (c : Z) (es : list event) (ks : list nat) : list Z :=
   match es, ks with
   | (t, o, op, r) :: es', k :: ks' =>
     let '(id, _, _, _) := qcall_at scripts t k in
-    let c' := if Nat.eqb id 3 && Nat.eqb o 4 && (op =? 1) && (r =? 0) then c + 1
-              else if Nat.eqb id 4 && Nat.eqb o 3 && (op =? 0) && (r =? 1) then c - 1 else c in
+    let c' := if Nat.even t && Nat.eqb id 3 && Nat.eqb o (8 + 2 * Nat.div t 2) && (op =? 1) && (r =? 0) then c + 1
+              else if Nat.even t && Nat.eqb id 4 && Nat.eqb o 3 && (op =? 0) && (r =? 1) then c - 1 else c in
     c' :: unfinished_after scripts c' es' ks'
   | _, _ => []
+  end.
+
+(* task_done never raises "called too many times" while the specification count is positive *)
+Fixpoint taskdone_ok (scripts : list (list qcall)) (es : list event) (ks : list nat) (counts : list Z) : bool :=
+  match es, ks, counts with
+  | (t, o, op, r) :: es', k :: ks', c :: counts' =>
+    let '(id, _, _, _) := qcall_at scripts t k in
+    (if Nat.even t && Nat.eqb id 4 && Nat.eqb o 3 && (op =? 0) && (r =? 0) then c <=? 0 else true)
+    && taskdone_ok scripts es' ks' counts'
+  | _, _, _ => true
   end.
 
 Fixpoint idxs_of (t k : nat) (es : list event) (ks : list nat) (j : nat) : list nat :=
@@ -198,7 +210,8 @@ Definition qmonitors (kind maxsize : Z) (scripts : list (list qcall)) (o : qobse
   && capacity_ok kind maxsize fins vals pipe bufs pend
   && forallb (fun v => 0 <=? v) vals
   && ((endk =? 2) || feeders_ok 0 bufs pend)
-  && all_joins_ok scripts es ks 0 scripts res.
+  && all_joins_ok scripts es ks 0 scripts res
+  && taskdone_ok scripts es ks (0 :: unfinished_after scripts 0 es ks).
 
 (* ------------------------------------------------------------------ correspondence *)
 Definition qmodel_obs (maxsize : Z) (scripts : list (list qcall)) (sched : list (nat * bool)) :=
